@@ -36,6 +36,12 @@ let c22_round = 5
 (* what the vm_compute cross-check re-evaluates: tree, voters, honest voters, votes cast, guard *)
 let last_multi : (nat list * int * int * vote list list * vote list list * bool) option ref = ref None
 
+let parse_votes s =
+  if s = "-" || s = "" then [] else
+    List.filter_map (fun e -> match String.split_on_char '.' e with
+      | [v; b] when b <> "?" -> (try Some (nat_of_hex v, nat_of_hex b) with _ -> None)
+      | _ -> None) (String.split_on_char '+' s)
+
 let check_multi ps nv nb bests ops obs =
   let t = List.map nat_of_hex (list_of ps) in
   let n = int_of_string ("0x" ^ nv) and nbyz = int_of_string ("0x" ^ nb) in
@@ -64,6 +70,12 @@ let check_multi ps nv nb bests ops obs =
       let x = { vvoter = v; vblock = b; vsig = O } in
       if sg = Precommit then pcs.(r) <- x :: pcs.(r) else pvs.(r) <- x :: pvs.(r)
     end in
+  (* commit pool: (round index, target block, precommits listed as (voter, block)) *)
+  let commits = ref [||] in
+  let push_commit c = commits := Array.append !commits [| c |] in
+  (* per voter: the finalised block recorded per round index (own finalisation or accepted commit),
+     in the order of recording *)
+  let fin_rounds = Array.make nh [] in
   let prevoted = Array.make nh false and precommitted = Array.make nh false and fin = Array.make nh false in
   let prev_view = Array.make nh None in
   let ops = list_of ops and obs_l = list_of obs in
@@ -137,8 +149,12 @@ let check_multi ps nv nb bests ops obs =
         end
       | 'f' ->
         let i = int_of_string ("0x" ^ rest) in
-        if fin.(i) then (if ob <> "done" then fail_eq (Printf.sprintf "op %d %s: go=%s model=done" idx op ob))
+        if fin.(i) then begin push_commit None; if ob <> "done" then fail_eq (Printf.sprintf "op %d %s: go=%s model=done" idx op ob) end
         else begin
+          (* the observation of a finalisation carries the commit message created: 1.<block>|<votes> *)
+          let (ob, commit_part) = (match String.index_opt ob '|' with
+            | Some p -> (String.sub ob 0 p, Some (String.sub ob (p + 1) (String.length ob - p - 1)))
+            | None -> (ob, None)) in
           let e = env i in
           let (r, st') = attempt_to_finalize e st.(i) in
           let expect = (match r with
@@ -149,7 +165,7 @@ let check_multi ps nv nb bests ops obs =
           else tag "order-dependent";
           if String.length ob > 2 && String.sub ob 0 2 = "1." then begin
             let b = String.sub ob 2 (String.length ob - 2) in
-            if b = "?" || b = "none" then begin fail_prop (Printf.sprintf "op %d %s: finalised an unknown block" idx op); diverged := true end
+            if b = "?" || b = "none" then begin push_commit None; fail_prop (Printf.sprintf "op %d %s: finalised an unknown block" idx op); diverged := true end
             else begin
               let b = nat_of_hex b in
               tag "finalised"; tag (Printf.sprintf "finalised-in-round-%d" ridx.(i));
@@ -157,15 +173,26 @@ let check_multi ps nv nb bests ops obs =
                 fail_prop (Printf.sprintf "op %d %s: finalised %s without a supermajority of precommits in the view" idx op ob);
               finalised := (b, ridx.(i)) :: !finalised;
               fin.(i) <- true;
+              fin_rounds.(i) <- (ridx.(i), b) :: fin_rounds.(i);
               st.(i) <- { st.(i) with s_head = b };
-              best_eff.(i) <- best_of i
+              best_eff.(i) <- best_of i;
+              (match commit_part with
+               | Some cp -> push_commit (Some (ridx.(i), b, parse_votes cp)); tag "commit-created"
+               | None -> push_commit None)
             end
-          end else if d then st.(i) <- st'
+          end else begin push_commit None; if d then st.(i) <- st' end
         end
       | 'n' ->
         let i = int_of_string ("0x" ^ rest) in
-        if not fin.(i) then (if ob <> "wait" then fail_eq (Printf.sprintf "op %d %s: go=%s model=wait" idx op ob))
+        let has_fin = List.exists (fun (r, _) -> r >= ridx.(i)) fin_rounds.(i) in
+        if not (fin.(i) || has_fin) then (if ob <> "wait" then fail_eq (Printf.sprintf "op %d %s: go=%s model=wait" idx op ob))
         else begin
+          (* initiateRound: the highest finalised round the block state knows, its block is the head *)
+          let top = List.fold_left (fun a (r, _) -> max a r) 0 fin_rounds.(i) in
+          let top_blk = (try List.assoc top fin_rounds.(i) with Not_found -> st.(i).s_head) in
+          if top > ridx.(i) then tag "round-jump";
+          st.(i) <- { st.(i) with s_head = top_blk };
+          ridx.(i) <- top;
           let expect = Printf.sprintf "r%x.h%s" (ridx.(i) + 1) (hex_of_nat st.(i).s_head) in
           if ob <> expect then begin fail_eq (Printf.sprintf "op %d %s: go=%s model=%s" idx op ob expect); diverged := true end;
           prev_view.(i) <- Some (spec_votes st.(i) Prevote, spec_votes st.(i) Precommit);
@@ -199,6 +226,48 @@ let check_multi ps nv nb bests ops obs =
            push (nat_of_hex j, sg, { gv_block = b; gv_num = drv_n_of_nat (depth t b) }, r);
            cast sg r (nat_of_hex j) b;
            tag "byzantine-vote"
+         | _ -> fail "bad op %s" op)
+      | 'x' ->
+        (match String.split_on_char '.' rest with
+         | [_; b; r; ms] ->
+           let b = nat_of_hex b and r = int_of_string ("0x" ^ r) in
+           (* what counts: correctly signed precommits of that round (other entries fail the
+              signature check of verifyJustification) *)
+           let votes = List.filter_map (fun ms ->
+               let m = int_of_string ("0x" ^ ms) in
+               if m < Array.length !pool then
+                 (match !pool.(m) with
+                  | Some (v, Precommit, g, mr) when mr = r -> Some (v, g.gv_block)
+                  | _ -> None)
+               else None) (if ms = "-" then [] else String.split_on_char '+' ms) in
+           push_commit (Some (r, b, votes)); tag "byzantine-commit"
+         | _ -> fail "bad op %s" op)
+      | 'k' ->
+        (match String.split_on_char '.' rest with
+         | [i; c] ->
+           let i = int_of_string ("0x" ^ i) and c = int_of_string ("0x" ^ c) in
+           let slot = if c < Array.length !commits then !commits.(c) else None in
+           (match slot with
+            | None -> if ob <> "nomsg" then begin fail_eq (Printf.sprintf "op %d %s: go=%s model=nomsg" idx op ob); diverged := true end
+            | Some (r, b, votes) ->
+              let had = List.exists (fun (r', _) -> r' = r) fin_rounds.(i) in
+              if had then begin
+                if ob <> "already" && not (String.length ob > 0 && ob.[0] = 'e') then
+                  fail_eq (Printf.sprintf "op %d %s: go=%s although the round has a finalised block" idx op ob);
+                tag "commit-already"
+              end else if ob = "0" then begin
+                (* premise of Model.finalised: the precommits of the commit have a supermajority *)
+                let ws = List.init n (fun _ -> Npos XH) in
+                let vl = List.map (fun (v, blk) -> { vvoter = v; vblock = blk; vsig = O }) votes in
+                if not (has_supermajority t ws vl b) then
+                  fail_prop (Printf.sprintf "op %d %s: commit for block %s accepted without a supermajority of precommits (%d listed)"
+                               idx op (hex_of_nat b) (List.length votes));
+                finalised := (b, r) :: !finalised;
+                fin_rounds.(i) <- (r, b) :: fin_rounds.(i);
+                (* the best block is re-evaluated against the block state's finalised head *)
+                tag "commit-accepted"
+              end else if String.length ob > 0 && ob.[0] = 'e' then tag "commit-rejected"
+              else begin fail_eq (Printf.sprintf "op %d %s: go=%s" idx op ob); diverged := true end)
          | _ -> fail "bad op %s" op)
       | _ -> fail "bad op %s" op
       end) (List.combine ops obs_l);
